@@ -17,6 +17,9 @@ TOPO = {
     'balls2': dict(switches={'bd_trough': ['s_t1', 's_t2', 's_t3'], 'bd_plunger': ['s_plunger', 's_plunger2'],
                              'bd_lock': ['s_lock1', 's_lock2']},
                    target={'bd_trough': 'bd_plunger', 'bd_plunger': 'pf', 'bd_lock': 'bd_plunger'}, cap='MCCap2', tgt='MCTarget2'),
+    'balls3': dict(switches={'bd_trough': ['s_t1', 's_t2', 's_t3'], 'bd_plunger': ['s_plunger'], 'bd_lock': ['s_lock1', 's_lock2']},
+                   target={'bd_trough': 'bd_plunger', 'bd_plunger': 'pf', 'bd_lock': 'bd_plunger'}, cap='MCCap3', tgt='MCTarget3',
+                   confirm={'bd_lock': 's_lock_confirm'}),
 }
 _H = {}
 
@@ -27,6 +30,7 @@ class World:
     def __init__(self, h, outcomes, ev, topo):
         self.SW = TOPO[topo]['switches']
         self.TG = TOPO[topo]['target']
+        self.CONFIRM = TOPO[topo].get('confirm', {})
         self.h = h
         self.m = h.machine
         self.loop = self.m.clock.loop
@@ -34,6 +38,7 @@ class World:
         self.outcomes = outcomes       # per device: list of 'ok' | 'back' | 'noleave'
         self.ev = ev
         self.pending = 0               # world moves scheduled and not done yet
+        self.fired = set()             # devices whose coil was pulsed and whose ball has not reacted yet
         self.want = 0
 
     def mpf(self):
@@ -66,11 +71,13 @@ class World:
     # ---- coil fired by MPF
     def coil_pulsed(self, dev):
         self.log(op='fire', d=dev)
+        self.fired.add(dev)
         q = self.outcomes.get(dev) or []
         kind = q.pop(0) if q else 'ok'
         self.later(0.1, self.react, dev, kind)
 
     def react(self, dev, kind):
+        self.fired.discard(dev)
         balls = self.at(dev)
         if not balls or kind == 'noleave':
             self.log(op='noleave', d=dev)
@@ -79,7 +86,14 @@ class World:
         self.loc[b] = ('transit', dev, self.TG[dev], kind)
         self.sync_switches(dev)
         self.log(op='leave', d=dev, b=b, kind=kind)
+        if dev in self.CONFIRM and kind == 'ok':
+            # the ball passes the eject-confirm switch shortly before it reaches the target
+            self.later(0.45, self.pulse_switch, self.CONFIRM[dev])
         self.later(0.6 if kind == 'ok' else 0.9, self.arrive, b)
+
+    def pulse_switch(self, name):
+        self.m.switch_controller.process_switch(name, 1, logical=True)
+        self.m.switch_controller.process_switch(name, 0, logical=True)
 
     def arrive(self, b):
         _, src, dst, kind = self.loc[b]
@@ -116,8 +130,10 @@ class World:
 
     def escape(self, dev):
         balls = self.at(dev)
-        if not balls:
+        if not balls or dev in self.fired:
             return
+        if dev == 'bd_trough':
+            self.want += 1
         b = balls[-1]
         self.loc[b] = ('transit', dev, 'pf', 'ok')
         self.sync_switches(dev)
@@ -220,6 +236,7 @@ CONSTANTS
   Cap <- %s
   Target <- %s
   Shootable = {"bd_lock"}
+  Escapable = {}
   MaxOps = %d
 %sCHECK_DEADLOCK FALSE
 """ % (spec, t['cap'], t['tgt'], maxops, extra)
@@ -238,8 +255,6 @@ def handmade():
         [R, N('bd_trough'), N('bd_trough'), R, S, S, D],
         [R, R, R, R, D, D, D, D],
         [R, S, R, S, L('bd_lock', 'back'), D, D],
-        # two balls leave the lock by themselves shortly after each other
-        [R, R, S, S, N('bd_lock'), N('bd_lock'), X, X],
         # the launcher's first try fails while the trough is already asked for the next ball
         [R, R, L('bd_trough', 'ok'), L('bd_plunger', 'back'), L('bd_trough', 'ok'), L('bd_plunger', 'ok'), R],
         [R, R, R, L('bd_trough', 'ok'), N('bd_plunger'), L('bd_trough', 'ok'), L('bd_plunger', 'ok'), D, D],
@@ -249,14 +264,14 @@ def handmade():
 def run_world(ctx):
     wd = tlc.prepare(ctx.scratch, 'BallWorld', 'ballworld')
     alljobs, alltraces, rejected = [], [], {}
-    for topo in ('balls', 'balls2'):
+    for topo in ('balls', 'balls2', 'balls3'):
         with open(wd + '/MC.cfg', 'w') as f:
             f.write(cfg_text('Spec', topo, 4 if ctx.quick else 6, 'INVARIANT TypeOK\nINVARIANT NeverOverfull\n'))
         r = tlc.expect_ok(tlc.check(wd, 'BallWorldMC', 'MC.cfg', workers=8, timeout=2000), 'BallWorld design check')
         ctx.add_tlc('BallWorldMC(%s)' % topo, r, {'Balls': 3, 'Devs': 3, 'MaxOps': 4 if ctx.quick else 6})
         with open(wd + '/Gen.cfg', 'w') as f:
             f.write(cfg_text('Spec', topo, 9, ''))
-        behs, _ = tlc.simulate(wd, 'BallWorldMC', 'Gen.cfg', num=130 if ctx.quick else 2500, depth=40, seed=ctx.seed)
+        behs, _ = tlc.simulate(wd, 'BallWorldMC', 'Gen.cfg', num=100 if ctx.quick else 2000, depth=40, seed=ctx.seed)
         jobs = [([s['act'] for s in b], ctx.seed * 1000 + i, topo) for i, b in enumerate(behs)]
         jobs += [(s, ctx.seed * 77 + i, topo) for i, s in enumerate(handmade())]
         traces = harness.pmap(exec_schedule, jobs, chunk=2, item_timeout=180)
@@ -276,7 +291,8 @@ def run_world(ctx):
     return alljobs, alltraces, rejected
 
 
-CAPS = {'balls': {'bd_trough': 3, 'bd_plunger': 1, 'bd_lock': 2}, 'balls2': {'bd_trough': 3, 'bd_plunger': 2, 'bd_lock': 2}}
+CAPS = {'balls': {'bd_trough': 3, 'bd_plunger': 1, 'bd_lock': 2}, 'balls2': {'bd_trough': 3, 'bd_plunger': 2, 'bd_lock': 2},
+        'balls3': {'bd_trough': 3, 'bd_plunger': 1, 'bd_lock': 2}}
 
 
 def classify(fe, topo):
